@@ -910,17 +910,32 @@ class Interp:
         if a is None or b is None:
             return False
 
-        def canon(x):
+        def canon(x, depth=0):
             x = self.expand_aff(st, x)
             t = {}
+            k0 = x.const
+            again = False
             for (sym, lo, hi), c in x.terms.items():
                 key = (sym, lo, hi)
                 if lo == 0:
                     r = st.rng.get(sym)
                     if hi >= 64 or (r and max(y for _, y in r) < (1 << hi)):
                         key = (sym, 0, -1)
+                    elif hi < 64:
+                        # bits hi.. of the symbol are all known constants: x[0..hi] = x - K
+                        full = self.reduce_bits(st, BV.sym(64, sym)).bits
+                        known = [full[i] if full[i] in (0, 1) else st.env.get((sym, i)) for i in range(hi, 64)]
+                        if all(b in (0, 1) for b in known):
+                            K = sum(b << (hi + i) for i, b in enumerate(known))
+                            key = (sym, 0, -1)
+                            k0 -= c * K
+                            again = again or sym in st.defs
                 t[key] = t.get(key, 0) + c
-            return Aff(t, x.const).norm(w)
+            out = Aff(t, k0)
+            if again and depth < 4:
+                # whole-symbol atoms of defined symbols can now be expanded
+                out = canon(Aff({(s2, 0, 64) if h == -1 else (s2, l, h): c for (s2, l, h), c in out.terms.items()}, out.const), depth + 1)
+            return out.norm(w)
         return canon(a) == canon(b)
 
     def expand_aff(self, st, aff, depth=0):
@@ -957,6 +972,10 @@ class Interp:
         base = op[:-len('WithOverflow')] if wo else op
         if b.w != a.w and not base.startswith('Sh'):
             raise Unsupported('width mismatch in %s' % op)
+        if base == 'BitAnd' and (a.is_const() != b.is_const()):
+            r = self.mask_low(st, b if a.is_const() else a, (a if a.is_const() else b).value())
+            if r is not None:
+                return r
         res = bv_binop(base, a, b)
         if base in ('Add', 'Sub', 'Mul', 'AddUnchecked', 'SubUnchecked', 'MulUnchecked') and not (a.is_const() and b.is_const()):
             b0 = base[:3]
@@ -1034,6 +1053,23 @@ class Interp:
                 else:
                     res = self.fresh_num(st, a.w, 'rem', [(0, min(amax, bmax - 1))], 0, a.signed)
         return res
+
+    def mask_low(self, st, v, m):
+        """v & (2^k - 1) for a result symbol with an exact definition A + C*2^k where 0 <= A < 2^k: the value is A"""
+        k = m.bit_length()
+        if m != (1 << k) - 1 or k >= v.w or k == 0:
+            return None
+        n = self.sym_of(v, st)
+        if n is None or n not in st.defs or not st.defs[n][2]:
+            return None
+        aff = self.expand_aff(st, st.defs[n][0])
+        terms = {t: c for t, c in aff.terms.items() if c % (1 << k)}
+        chi = aff.const >> k
+        A = Aff(terms, aff.const - (chi << k))
+        lo, hi = self.aff_range(st, A)
+        if 0 <= lo and hi < (1 << k):
+            return self.fresh_num(st, v.w, 'mask', [(lo, hi)], 0, v.signed, A, exact=True)
+        return None
 
     def _no_ovf(self, base, a, b):
         x, y = a.value(), b.value()
@@ -1868,6 +1904,17 @@ class Interp:
             return [Outcome(st, 'diverge', None)]
         if k == 'tuple' and not rt['elems']:
             return [Outcome(st, 'ret', UNIT)]
+        if k == 'tuple':
+            # cross product of the element outcomes (elements may be Option / Result and split the path)
+            partial = [(st, [])]
+            for i, et in enumerate(rt['elems']):
+                nxt = []
+                for (s1, vals) in partial:
+                    for o in self.fresh_result(s1, et, '%s.%d' % (tag, i)):
+                        if o.kind == 'ret':
+                            nxt.append((o.st, vals + [o.val]))
+                partial = nxt
+            return [Outcome(s1, 'ret', Struct('tuple', vals)) for s1, vals in partial]
         return [Outcome(st, 'ret', self.sym_value(rt, tag, st))]
 
     # ------------------------------------------------------------------ inline asm
